@@ -348,7 +348,10 @@ CLAIMED['C19'] = dict(
          'a WireVector equals the one given by to_wirevector (conversion round trip is the identity on layout); C-order '
          'and F-order flat indices are bijections with the div/mod inverses used by flatten/reshape/put; a reshape lands '
          'inside the new shape; the declared widths of +, element-wise/scalar * and @ (n*n*(ba+bb) bits) hold the exact '
-         'value. Oracle: every Matrix operation (access/slicing, +, saturating -, *, scalar *, @, **, transpose, '
+         'value; an integer index k on an axis of length n addresses exactly the cell k (n+k when negative) for -n <= k < n and is '
+         'refused otherwise (model Model/Lib/MatrixIndex.lean of the index handling of __setitem__, tied on every run for every k '
+         'on and beyond both ends of axes of length 1..4; the same theorem file proves that the code before the repair 7a54e23 '
+         'gave the empty slice for k = -1). Oracle: every Matrix operation (access/slicing, +, saturating -, *, scalar *, @, **, transpose, '
          'reshape/flatten/put in both orders, sum/min/max/argmax along each axis, dot incl. the vector inner-product rule, '
          'hstack/vstack/concatenate, copy, setitem, conversion round trip, list_to_int) on shapes up to 4x4 with mixed '
          'element widths 1..8 against integer-matrix arithmetic modulo 2^bits of the result, comparing shape and bits as '
